@@ -36,15 +36,19 @@ theorem lookup_erase (k k' : Ident) (l : List (Ident × Nat)) :
 theorem upd_other (f : Nat → Cache) (c i : Nat) (v : Cache) (h : i ≠ c) : upd f c v i = f i := by simp [upd, h]
 theorem upd_apply (f : Nat → Cache) (c i : Nat) (v : Cache) : upd f c v i = if i = c then v else f i := rfl
 
+theorem cancelPending_task {s : St} {c : Nat} (h : (s.caches c).task.isSome = true) :
+    cancelPending s c = { s with caches := upd s.caches c { s.caches c with task := none } } := by
+  simp [cancelPending, h]
+
 /-! ### the invariant -/
 
 structure Inv (s : St) : Prop where
   idsOk : ∀ k c, lookup k s.ids = some c →
-    c < s.n ∧ (s.caches c).ident = k ∧ (s.caches c).task.isSome = true ∧ s.running ≠ some c
-  taskOk : ∀ c, (s.caches c).task.isSome = true → s.running ≠ some c → lookup (s.caches c).ident s.ids = some c
+    c < s.n ∧ (s.caches c).ident = k ∧ (s.caches c).task.isSome = true
+  taskOk : ∀ c, (s.caches c).task.isSome = true → lookup (s.caches c).ident s.ids = some c
   runOk : ∀ c, s.running = some c → c < s.n
   sdOk : s.shutdown = true → s.ids = [] ∧ (∀ c, (s.caches c).task = none) ∧ s.running = none
-  timeOk : ∀ c dl, (s.caches c).task = some dl → s.running ≠ some c → s.now ≤ dl
+  timeOk : ∀ c dl, (s.caches c).task = some dl → s.now ≤ dl
 
 theorem inv_init : Inv init := by
   constructor <;> simp [init]
@@ -56,9 +60,7 @@ theorem Inv.fresh_none {s : St} (h : Inv s) (c : Nat) (hc : s.n ≤ c) : (s.cach
   | some dl =>
     exfalso
     have hs : (s.caches c).task.isSome = true := by simp [ht]
-    by_cases hr : s.running = some c
-    · have := h.runOk c hr; omega
-    · have := (h.idsOk _ _ (h.taskOk c hs hr)).1; omega
+    have := (h.idsOk _ _ (h.taskOk c hs)).1; omega
 
 /-! ### every event preserves the invariant -/
 
@@ -94,7 +96,7 @@ theorem step_inv (s : St) (e : Ev) (h : Inv s) : Inv (step s e).1 := by
       have hov := fun c hc dl ht => overdue_nil (s := s) (t := t) ho c hc dl ht
       obtain ⟨h1, h2, h3, h4, h5⟩ := h
       constructor <;> try assumption
-      intro c dl ht hr
+      intro c dl ht
       by_cases hc : c < s.n
       · exact hov c hc dl ht
       · have := hf c (by omega); simp_all
@@ -113,20 +115,25 @@ theorem step_inv (s : St) (e : Ev) (h : Inv s) : Inv (step s e).1 := by
     split
     · constructor <;> assumption
     split
-    · constructor <;> assumption
-    split
     · constructor <;> simp only [upd_apply, Cache.cancelFuts, Cache.ident] at * <;> grind
     split
     · constructor <;> assumption
     split
-    · constructor <;> simp only [upd_apply, lookup_cons, Cache.ident] at * <;> grind
-    · constructor <;> simp only [upd_apply, lookup_cons, Cache.ident] at * <;> grind
+    · constructor <;> assumption
+    · rename_i hnt
+      have htn : (s.caches c).task = none := by
+        cases ht : (s.caches c).task with
+        | none => rfl
+        | some x => simp [nameTaken, ht] at hnt
+      constructor <;> simp only [upd_apply, lookup_cons, Cache.ident] at * <;> grind
   | pop p num =>
     simp only [step]
     cases hl : lookup (p, num) s.ids with
     | none => simpa using h
     | some c =>
       have hc := h.idsOk _ _ hl
+      have hcp := cancelPending_task (s := { s with ids := erase (p, num) s.ids }) (c := c) hc.2.2
+      simp only [hcp]
       obtain ⟨h1, h2, h3, h4, h5⟩ := h
       constructor <;> simp only [lookup_erase, upd_apply] <;> grind
   | get p num => exact h
@@ -149,7 +156,7 @@ theorem step_inv (s : St) (e : Ev) (h : Inv s) : Inv (step s e).1 := by
     split
     · exact h
     · obtain ⟨h1, h2, h3, h4, h5⟩ := h
-      constructor <;> simp only [lookup_erase, Cache.ident] at * <;> grind
+      constructor <;> simp only [lookup_erase, upd_apply, Cache.ident] at * <;> grind
   | fireEnd =>
     simp only [step]
     split
@@ -194,7 +201,7 @@ theorem step_inv (s : St) (e : Ev) (h : Inv s) : Inv (step s e).1 := by
 
 /-! ### counting resolutions -/
 
-def outN (s : St) (c : Nat) : Nat := if (s.caches c).task.isSome = true ∧ s.running ≠ some c then 1 else 0
+def outN (s : St) (c : Nat) : Nat := if (s.caches c).task.isSome = true then 1 else 0
 def resN (r : Reply) (c : Nat) : Nat := if r = .claimed c ∨ r = .timedOut c then 1 else 0
 def addN (r : Reply) (c : Nat) : Nat := if r = .added c then 1 else 0
 
@@ -235,14 +242,15 @@ theorem step_count (s : St) (e : Ev) (c : Nat) (h : Inv s) :
     | none => simp [resN, addN]
     | some c0 =>
       have hc := h.idsOk _ _ hl
-      simp only [resN, addN, outN, upd_apply]; grind
+      have hcp := cancelPending_task (s := { s with ids := erase (p, num) s.ids }) (c := c0) hc.2.2
+      simp only [hcp, resN, addN, outN, upd_apply]; grind
   | get p num => simp [step, resN, addN]
   | enter t fs => simp only [step, resN, addN, outN]; grind
   | exit => simp only [step, resN, addN, outN]; grind
   | fireBegin c0 =>
     simp only [step]
     repeat' split
-    all_goals simp only [resN, addN, outN] <;> grind
+    all_goals simp only [resN, addN, outN, upd_apply] <;> grind
   | fireEnd =>
     simp only [step]
     split
@@ -343,7 +351,7 @@ theorem lookup_hasVal {k : Ident} {c : Nat} {l : List (Ident × Nat)} (h : looku
 
 /-- the shutdown flag is never reset -/
 theorem step_shutdown_mono (s : St) (e : Ev) (h : s.shutdown = true) : (step s e).1.shutdown = true := by
-  cases e <;> simp only [step, mkCache] <;> repeat' split
+  cases e <;> simp only [step, mkCache, cancelPending] <;> repeat' split
   all_goals simp_all
 
 theorem run_shutdown_mono (s : St) (evs : List Ev) (h : s.shutdown = true) : (final s evs).shutdown = true := by
@@ -355,7 +363,7 @@ theorem run_shutdown_mono (s : St) (evs : List Ev) (h : s.shutdown = true) : (fi
 theorem step_after_shutdown (s : St) (e : Ev) (h : Inv s) (hs : s.shutdown = true) (c : Nat) :
     (step s e).2 ≠ .timedOut c ∧ (step s e).2 ≠ .added c := by
   obtain ⟨hi, ht, hr⟩ := h.sdOk hs
-  cases e <;> simp only [step, mkCache] <;> repeat' split
+  cases e <;> simp only [step, mkCache, cancelPending] <;> repeat' split
   all_goals simp_all
 
 theorem run_after_shutdown (s : St) (evs : List Ev) (h : Inv s) (hs : s.shutdown = true) (c : Nat) :
@@ -377,7 +385,8 @@ theorem cancel_not_pending (f : Fut) : (Fut.cancel f).st ≠ .pending := by
 
 theorem fireBegin_accepted {s : St} {c c' : Nat} (h : (step s (.fireBegin c)).2 = .timedOut c') :
     c' = c ∧ s.running = none ∧ c < s.n ∧ (∃ dl, (s.caches c).task = some dl ∧ dl ≤ s.now) ∧
-    (step s (.fireBegin c)).1 = { s with ids := erase (s.caches c).ident s.ids, running := some c } := by
+    (step s (.fireBegin c)).1 = { s with ids := erase (s.caches c).ident s.ids, running := some c, runReg := true,
+                                         caches := upd s.caches c { s.caches c with task := none } } := by
   cases hrun : s.running with
   | some r => simp [step, hrun] at h
   | none =>
@@ -393,27 +402,121 @@ theorem fireBegin_accepted {s : St} {c c' : Nat} (h : (step s (.fireBegin c)).2 
           refine ⟨h.symm, ?_, by omega, ⟨dl, ?_, by omega⟩, ?_⟩ <;> simp
 
 theorem add_accepted {s : St} {c c' : Nat} (h : (step s (.add c)).2 = .added c') :
-    c' = c ∧ c < s.n ∧ s.running ≠ some c ∧ s.shutdown = false ∧ lookup (s.caches c).ident s.ids = none ∧
+    c' = c ∧ c < s.n ∧ s.shutdown = false ∧ lookup (s.caches c).ident s.ids = none ∧
     (s.caches c).task = none ∧
     ((step s (.add c)).1.caches c).task = some (s.now + effDelay s (s.caches c)) := by
   by_cases hn : s.n ≤ c
   · simp [step, hn] at h
-  by_cases hr : s.running = some c
-  · simp [step, hn, hr] at h
   by_cases hd : (s.caches c).delay ≤ Gen.minDelayExclusiveMs
-  · simp [step, hn, hr, hd] at h
+  · simp [step, hn, hd] at h
   cases hs : s.shutdown with
-  | true => simp [step, hn, hr, hd, hs] at h
+  | true => simp [step, hn, hd, hs] at h
   | false =>
     cases hl : lookup (s.caches c).ident s.ids with
-    | some x => simp [step, hn, hr, hd, hs, hl] at h
+    | some x => simp [step, hn, hd, hs, hl] at h
     | none =>
-      cases ht : (s.caches c).task with
-      | some x => simp [step, hn, hr, hd, hs, hl, ht] at h
-      | none =>
-        simp only [step, hn, hr, hd, hs, hl, ht, if_false, Bool.false_eq_true] at h ⊢
+      by_cases hb : ((s.caches c).task.isSome || (s.running == some c && s.runReg)) = true
+      · simp [step, nameTaken, hn, hd, hs, hl, hb] at h
+      · have ht : (s.caches c).task = none := by
+          cases ht : (s.caches c).task with
+          | none => rfl
+          | some x => simp [ht] at hb
+        simp only [step, nameTaken, hn, hd, hs, hl, hb, if_false, Bool.false_eq_true] at h ⊢
         injection h with h
-        refine ⟨h.symm, by omega, hr, ?_, ?_, ?_, ?_⟩ <;> simp
+        refine ⟨h.symm, by omega, ?_, ?_, ht, ?_⟩ <;> simp
+
+/-! ### exact counting when nothing is dropped -/
+
+def isDrop : Ev → Bool
+  | .clear => true
+  | .shutdown => true
+  | _ => false
+
+theorem mk_count_eq (s : St) (p num : Nat) (d : Option Nat) (cls : Nat) (ks : List Bool) (c : Nat) (h : Inv s) :
+    resN (mkCache s p num d cls ks).2 c + outN (mkCache s p num d cls ks).1 c
+      = addN (mkCache s p num d cls ks).2 c + outN s c := by
+  have hf := h.fresh_none
+  unfold mkCache
+  split
+  · simp [resN, addN]
+  · simp only [resN, addN, outN, upd_apply]; grind
+
+theorem step_count_eq (s : St) (e : Ev) (c : Nat) (h : Inv s) (hd : isDrop e = false) :
+    resN (step s e).2 c + outN (step s e).1 c = addN (step s e).2 c + outN s c := by
+  have hf := h.fresh_none
+  cases e with
+  | tick t =>
+    simp only [step]
+    split
+    · simp [resN, addN]
+    split
+    · simp [resN, addN]
+    split <;> simp [resN, addN, outN]
+  | mk p num d cls ks => exact mk_count_eq s p num d cls ks c h
+  | mkRandom p cands d cls ks =>
+    simp only [step]
+    split
+    · simp [resN, addN]
+    · exact mk_count_eq s p _ d cls ks c h
+  | add c0 =>
+    obtain ⟨h1, h2, h3, h4, h5⟩ := h
+    simp only [step]
+    repeat' split
+    all_goals simp only [resN, addN, outN, upd_apply, Cache.cancelFuts, nameTaken] at * <;> grind
+  | pop p num =>
+    simp only [step]
+    cases hl : lookup (p, num) s.ids with
+    | none => simp [resN, addN]
+    | some c0 =>
+      have hc := h.idsOk _ _ hl
+      have hcp := cancelPending_task (s := { s with ids := erase (p, num) s.ids }) (c := c0) hc.2.2
+      simp only [hcp, resN, addN, outN, upd_apply]; grind
+  | get p num => simp [step, resN, addN]
+  | enter t fs => simp only [step, resN, addN, outN]; grind
+  | exit => simp only [step, resN, addN, outN]; grind
+  | fireBegin c0 =>
+    simp only [step]
+    repeat' split
+    all_goals simp only [resN, addN, outN, upd_apply] <;> grind
+  | fireEnd =>
+    simp only [step]
+    split
+    · simp [resN, addN]
+    · simp only [resN, addN, outN, upd_apply, Cache.completeFuts]; grind
+  | fireAbort =>
+    simp only [step]
+    split
+    · simp [resN, addN]
+    · simp only [resN, addN, outN, upd_apply]; grind
+  | clear => simp [isDrop] at hd
+  | shutdown => simp [isDrop] at hd
+  | futSet c0 i =>
+    simp only [step]
+    split
+    · simp [resN, addN]
+    · simp only [resN, addN, outN, upd_apply]; grind
+  | futCancel c0 i =>
+    simp only [step]
+    split
+    · simp [resN, addN]
+    · simp only [resN, addN, outN, upd_apply]; grind
+  | regFut c0 k =>
+    simp only [step]
+    split
+    · simp [resN, addN]
+    · simp only [resN, addN, outN, upd_apply]; grind
+
+theorem run_count_eq (s : St) (evs : List Ev) (c : Nat) (h : Inv s) (hd : ∀ e ∈ evs, isDrop e = false) :
+    (trace s evs).count (.claimed c) + (trace s evs).count (.timedOut c) + outN (final s evs) c
+      = (trace s evs).count (.added c) + outN s c := by
+  induction evs generalizing s with
+  | nil => simp [trace_nil, final_nil]
+  | cons e es ih =>
+    have h1 := step_count_eq s e c h (hd e (by simp))
+    have h2 := ih _ (step_inv s e h) (fun e' he' => hd e' (by simp [he']))
+    rw [resN_eq, addN_eq] at h1
+    simp only [trace_cons, final_cons, List.count_cons]
+    omega
 
 /-! ### futures are monotone -/
 
@@ -441,7 +544,7 @@ theorem fut_done_stable' (s : St) (e : Ev) (c i : Nat) (f : Fut) (hc : c < s.n)
     rcases Nat.lt_or_ge i (s.caches c).futs.length with h | h
     · exact h
     · rw [List.getElem?_eq_none h] at hf; cases hf
-  cases e <;> simp only [step, mkCache] <;> repeat' split
+  cases e <;> simp only [step, mkCache, cancelPending] <;> repeat' split
   all_goals first
     | exact hf
     | (simp only [upd_apply, Cache.cancelFuts, Cache.completeFuts]
